@@ -213,6 +213,11 @@ pub fn op_json(o: &Op) -> Value {
 
 /// runs one history on one solver kind; `qpoints[i]` = query round after update i
 fn run_history(kind: &str, updates: &[Op], qpoints: &[bool], seed: u64, oracle: &str, backend: &str) -> Vec<String> {
+    // "bulk:" histories build a given framework: the judge recomputes the families only at the query rounds ("ub" + "sync" events)
+    let (kind, bulk) = match kind.strip_prefix("bulk:") {
+        Some(k) => (k, true),
+        None => (kind, false),
+    };
     let (kind, wide) = match kind.strip_prefix("wide:") {
         Some(k) => (k, true),
         None => (kind, false),
@@ -235,7 +240,10 @@ fn run_history(kind: &str, updates: &[Op], qpoints: &[bool], seed: u64, oracle: 
     for (i, o) in updates.iter().enumerate() {
         let res = do_update(&mut s, o);
         g.apply(o);
-        lines.push(json!({"ev": "u", "o": op_json(o), "res": res}).to_string());
+        lines.push(json!({"ev": if bulk { "ub" } else { "u" }, "o": op_json(o), "res": res}).to_string());
+        if qpoints[i] && bulk {
+            lines.push(json!({"ev": "sync"}).to_string());
+        }
         if qpoints[i] {
             let mut live: Vec<usize> = g.live.iter().cloned().collect();
             live.shuffle(&mut rng);
@@ -251,6 +259,7 @@ fn run_history(kind: &str, updates: &[Op], qpoints: &[bool], seed: u64, oracle: 
             // repeat a few queries with the other certificate flag (cache hits within the same epoch)
             let extra: Vec<(usize, &str, bool)> = qs.iter().filter(|_| rng.gen_bool(0.4)).map(|(a, k, c)| (*a, *k, !*c)).collect();
             qs.extend(extra);
+            qs.shuffle(&mut rng);
             for (a, k, c) in qs {
                 // a query that makes more than 400 SAT calls on these small frameworks is not going to terminate (C18)
                 {
@@ -351,6 +360,72 @@ pub fn cmd_dynamic(a: &Args) {
                 let k = &kinds[(hi / stride * per + j) % kinds.len()];
                 n += 1;
                 jobs.push((k.clone(), ups.clone(), qp.clone(), seed.wrapping_mul(31).wrapping_add(n)));
+            }
+        }
+    }
+    // targets: given frameworks (5-9 arguments, the sets used for the static solvers) are built through an update history -- arguments and
+    // attacks in random order, with detours (a dummy argument that is removed again, attacks toggled, spurious attacks removed later) --
+    // then queried in random order with repetitions; finally one attack is removed, queried, put back, queried
+    let tfile = a.get("targets", "");
+    if !tfile.is_empty() {
+        let per = a.num("perhist", 2).min(kinds.len());
+        for (ti, spec) in crate::afio::read_afs(&tfile).iter().enumerate() {
+            if spec.n == 0 {
+                continue;
+            }
+            let mut ups: Vec<Op> = vec![];
+            let mut order: Vec<usize> = (1..=spec.n).collect();
+            order.shuffle(&mut rng);
+            let dummy = spec.n + 1;
+            let use_dummy = rng.gen_bool(0.5);
+            for (i, l) in order.iter().enumerate() {
+                ups.push(Op { op: "newarg".into(), a: *l, b: 0 });
+                if use_dummy && i == spec.n / 2 {
+                    ups.push(Op { op: "newarg".into(), a: dummy, b: 0 });
+                    ups.push(Op { op: "newatt".into(), a: dummy, b: *l });
+                    ups.push(Op { op: "newatt".into(), a: order[0], b: dummy });
+                }
+            }
+            let mut atts = spec.att.clone();
+            atts.shuffle(&mut rng);
+            let mut spurious: Vec<(usize, usize)> = vec![];
+            for (x, y) in &atts {
+                ups.push(Op { op: "newatt".into(), a: *x, b: *y });
+                if rng.gen_bool(0.15) {
+                    ups.push(Op { op: "rmatt".into(), a: *x, b: *y });
+                    ups.push(Op { op: "newatt".into(), a: *x, b: *y });
+                }
+                if rng.gen_bool(0.1) {
+                    let p = (rng.gen_range(1..=spec.n), rng.gen_range(1..=spec.n));
+                    if !spec.att.contains(&p) && !spurious.contains(&p) {
+                        ups.push(Op { op: "newatt".into(), a: p.0, b: p.1 });
+                        spurious.push(p);
+                    }
+                }
+            }
+            let mid = ups.len() - 1 - rng.gen_range(0..=atts.len().min(3));
+            for p in &spurious {
+                ups.push(Op { op: "rmatt".into(), a: p.0, b: p.1 });
+            }
+            if use_dummy {
+                ups.push(Op { op: "rmarg".into(), a: dummy, b: 0 });
+            }
+            let mut qp: Vec<bool> = ups.iter().map(|_| false).collect();
+            if rng.gen_bool(0.5) {
+                qp[mid] = true;
+            }
+            let last = qp.len() - 1;
+            qp[last] = true;
+            if let Some((x, y)) = atts.first() {
+                ups.push(Op { op: "rmatt".into(), a: *x, b: *y });
+                qp.push(true);
+                ups.push(Op { op: "newatt".into(), a: *x, b: *y });
+                qp.push(true);
+            }
+            for j in 0..per {
+                let k = &kinds[(ti * per + j) % kinds.len()];
+                n += 1;
+                jobs.push((format!("bulk:{}", k), ups.clone(), qp.clone(), seed.wrapping_mul(977).wrapping_add(n)));
             }
         }
     }
